@@ -15,7 +15,7 @@ def lib_name(i):
     return f"lib{i}"
 
 
-def write_module(root, k, edges, extra_methods=2, cross_params=False):
+def write_module(root, k, edges, extra_methods=2, cross_params=False, chains=False, enum_only=()):
     """edges: dict (i, j) -> 'base' | 'typedef'.  Returns per-library info."""
     libs = []
     sysd = os.path.join(root, "sys")
@@ -30,7 +30,16 @@ def write_module(root, k, edges, extra_methods=2, cross_params=False):
         rb = [f"class RB{i} : public R{i} {{", "PUBLISHED:", f"  RB{i}();", f"  enum Mode{i} {{ ma{i}, mb{i} = 3 }};",
               f"  class In{i} {{", "  PUBLISHED:", f"    In{i}();", "    int inner_val() const;", "  };",
               f"  int rb_id() const;", "};"] if cross_params else []
-        h = [f"#ifndef {n.upper()}_ROOT_H", f"#define {n.upper()}_ROOT_H", '#include "vfpub.h"',
+        ge = ["BEGIN_PUBLISH", f"enum Color{i} {{ red{i}, green{i} = 4 }};", "END_PUBLISH"] if cross_params else []
+        if i in enum_only:
+            # a library that contributes types but no functions at all
+            h = [f"#ifndef {n.upper()}_ROOT_H", f"#define {n.upper()}_ROOT_H", '#include "vfpub.h"', "BEGIN_PUBLISH",
+                 f"enum OnlyEnum{i} {{ oe_a{i}, oe_b{i} = 9 }};", f"enum class OnlyScoped{i} {{ x{i}, y{i} }};", "END_PUBLISH", "#endif"]
+            open(os.path.join(d, f"{n}_root.h"), "w").write("\n".join(h) + "\n")
+            open(os.path.join(d, f"{n}.cxx"), "w").write(f'#include "{n}_root.h"\n')
+            libs.append(dict(name=n, dir=d, headers=[f"{n}_root.h"], classes=[], derived=[], enum_only=True))
+            continue
+        h = [f"#ifndef {n.upper()}_ROOT_H", f"#define {n.upper()}_ROOT_H", '#include "vfpub.h"'] + ge + [
              f"class R{i} {{", "PUBLISHED:", f"  R{i}();", f"  virtual ~R{i}();", f"  int base_id_{i}() const;",
              f"  virtual int vid() const;", "};"] + rb + ["#endif"]
         open(os.path.join(d, f"{n}_root.h"), "w").write("\n".join(h) + "\n")
@@ -48,7 +57,10 @@ def write_module(root, k, edges, extra_methods=2, cross_params=False):
             hn = f"{n}_d{j}.h"
             g = f"{n.upper()}_D{j}_H"
             if kind == "base":
-                xp = [f"  int use_base(const R{j} &x, R{j} *p) const;", f"  enum E{i}_{j} {{ ea{i}_{j}, eb{i}_{j} = 5 }};",
+                if j in enum_only:
+                    continue
+                xp = [f"  int use_base(const R{j} &x, R{j} *p) const;", f"  int use_color(Color{j} c) const;",
+                      f"  enum E{i}_{j} {{ ea{i}_{j}, eb{i}_{j} = 5 }};",
                       f"  int m{i}_{j};", f"  int use_rb(const RB{j} *q, RB{j}::In{j} *in, RB{j}::Mode{j} m) const;"] if cross_params else []
                 h = [f"#ifndef {g}", f"#define {g}", '#include "vfpub.h"', f'#include "lib{j}_root.h"',
                      f"class D{i}_{j} : public R{j} {{", "PUBLISHED:", f"  D{i}_{j}();", f"  int own_id() const;",
@@ -60,11 +72,26 @@ def write_module(root, k, edges, extra_methods=2, cross_params=False):
                        f"int D{i}_{j}::own_id() const {{ return {1000 + 10 * i + j}; }}",
                        f"int D{i}_{j}::vid() const {{ return {1000 + 10 * i + j}; }}"]
                 if cross_params:
-                    cx += [f"int D{i}_{j}::use_rb(const RB{j} *q, RB{j}::In{j} *in, RB{j}::Mode{j} m) const {{ return (q ? 1 : 0) + (in ? 2 : 0) + (int)m; }}",
+                    cx += [f"int D{i}_{j}::use_color(Color{j} c) const {{ return (int)c; }}",
+                           f"int D{i}_{j}::use_rb(const RB{j} *q, RB{j}::In{j} *in, RB{j}::Mode{j} m) const {{ return (q ? 1 : 0) + (in ? 2 : 0) + (int)m; }}",
                            f"int D{i}_{j}::use_base(const R{j} &x, R{j} *p) const {{ return x.vid() + (p ? 1 : 0); }}",
                            f"int free{i}_{j}(const R{j} *x, D{i}_{j} &d) {{ return d.vid() + (x ? 1 : 0); }}"]
                 classes.append(f"D{i}_{j}")
                 derived.append((f"D{i}_{j}", f"R{j}", j))
+                # a third level: derive from a class of library j that is itself derived from library k's class
+                if chains:
+                    for (a2, k2), kind2 in sorted(edges.items()):
+                        if a2 == j and kind2 == "base" and k2 != i and k2 not in enum_only and j not in enum_only:
+                            hn2 = f"{n}_dd{j}_{k2}.h"
+                            h2 = [f"#ifndef {n.upper()}_DD{j}_{k2}_H", f"#define {n.upper()}_DD{j}_{k2}_H", '#include "vfpub.h"',
+                                  f'#include "lib{j}_d{k2}.h"', f"class DD{i}_{j}_{k2} : public D{j}_{k2} {{", "PUBLISHED:",
+                                  f"  DD{i}_{j}_{k2}();", "  int deep_id() const;", "};", "#endif"]
+                            open(os.path.join(d, hn2), "w").write("\n".join(h2) + "\n")
+                            headers.append(hn2)
+                            cx += [f'#include "{hn2}"', f"DD{i}_{j}_{k2}::DD{i}_{j}_{k2}() {{}}",
+                                   f"int DD{i}_{j}_{k2}::deep_id() const {{ return {5000 + 100 * i + 10 * j + k2}; }}"]
+                            classes.append(f"DD{i}_{j}_{k2}")
+                            break
             else:
                 h = [f"#ifndef {g}", f"#define {g}", '#include "vfpub.h"', f'#include "lib{j}_root.h"', "BEGIN_PUBLISH",
                      f"typedef R{j} T{i}_{j};", f"int use_t{i}_{j}(const T{i}_{j} &x);", "END_PUBLISH", "#endif"]
